@@ -44,6 +44,9 @@ impl RawOp for Ripemd {
     fn name(&self) -> String {
         "ripemd160".into()
     }
+    fn api(&self) -> String {
+        "RipeMD160Chip::hash".into()
+    }
     fn shape(&self) -> String {
         format!("len={}", self.len)
     }
@@ -92,10 +95,16 @@ impl<const M: usize> RawOp for VarSha256<M> {
     type In = Vec<u8>;
     type Chip = VarLenSha256Gadget<F>;
     fn name(&self) -> String {
+        "sha256_varlen".into()
+    }
+    fn api(&self) -> String {
+        "VarLenSha256Gadget::varhash".into()
+    }
+    fn label(&self) -> String {
         format!("sha256_varlen[M={M}]")
     }
     fn shape(&self) -> String {
-        format!("trim={} pinned_len={}", self.trim, self.pinned.len())
+        format!("M={M} trim={} pinned_len={}", self.trim, self.pinned.len())
     }
     fn describe(&self, payload: &Vec<u8>) -> Json {
         json!({"op": "sha256_varlen", "M": M, "filler": self.filler, "trim": self.trim, "payload": hex::encode(payload), "effective_message": hex::encode(&self.pinned)})
@@ -138,10 +147,16 @@ impl<const M: usize> RawOp for VarPoseidon<M> {
     type In = Vec<F>;
     type Chip = VarLenPoseidonGadget<F>;
     fn name(&self) -> String {
+        "poseidon_varlen".into()
+    }
+    fn api(&self) -> String {
+        "VarLenPoseidonGadget::varhash".into()
+    }
+    fn label(&self) -> String {
         format!("poseidon_varlen[M={M}]")
     }
     fn shape(&self) -> String {
-        format!("trim={} pinned_len={}", self.trim, self.pinned.len())
+        format!("M={M} trim={} pinned_len={}", self.trim, self.pinned.len())
     }
     fn describe(&self, payload: &Vec<F>) -> Json {
         json!({"op": "poseidon_varlen", "M": M, "filler": self.filler.as_ref().map(hexf), "trim": self.trim,
@@ -200,6 +215,9 @@ impl RawOp for SpongeScript {
         } else {
             "poseidon_sponge[streaming]".into()
         }
+    }
+    fn api(&self) -> String {
+        "PoseidonChip::{init,absorb,squeeze}".into()
     }
     fn shape(&self) -> String {
         format!("{:?} {:?}", self.fixed_len, self.steps)
